@@ -17,9 +17,10 @@ mod inspect;
 use anyhow::Result;
 use clap::{Parser, Subcommand};
 use ragc_core::{
-    contig_iterator::ContigIterator, Decompressor, DecompressorConfig, MultiFileIterator,
-    StreamingQueueCompressor, StreamingQueueConfig,
+    contig_iterator::ContigIterator, Decompressor, DecompressorConfig, GenomeWriter,
+    MultiFileIterator, StreamingQueueCompressor, StreamingQueueConfig,
 };
+use std::fs::File;
 use std::io::{self, Write};
 use std::path::{Path, PathBuf};
 
@@ -1142,22 +1143,27 @@ fn getset_command(
     // If output file specified, extract to file
     // Otherwise, extract to stdout (via temp file for simplicity)
     if let Some(output_path) = output {
-        // Extract each sample to the output file (append mode)
+        // Extract each sample to the output file: ONE writer for all samples (creating the file
+        // once per sample truncated it each time and only the last sample survived)
+        let mut writer = GenomeWriter::<File>::create(&output_path)?;
         for sample_name in &samples_to_extract {
             if verbosity > 0 {
                 eprintln!("Extracting sample: {sample_name}");
             }
-            decompressor.write_sample_fasta(sample_name, &output_path)?;
+            decompressor.write_sample_to(sample_name, &mut writer)?;
         }
     } else {
         // Extract to temp file then write to stdout
         let temp_path =
             std::env::temp_dir().join(format!("agc_extract_{}.fasta", std::process::id()));
-        for sample_name in &samples_to_extract {
-            if verbosity > 0 {
-                eprintln!("Extracting sample: {sample_name}");
+        {
+            let mut writer = GenomeWriter::<File>::create(&temp_path)?;
+            for sample_name in &samples_to_extract {
+                if verbosity > 0 {
+                    eprintln!("Extracting sample: {sample_name}");
+                }
+                decompressor.write_sample_to(sample_name, &mut writer)?;
             }
-            decompressor.write_sample_fasta(sample_name, &temp_path)?;
         }
         // Write temp file to stdout
         let contents = std::fs::read(&temp_path)?;
